@@ -123,6 +123,39 @@ def run(chk):
         reads = [unparse(r)[:40] for r in _reads_usage(f.node) if not _presence_test_only(f, r)]
         r4.require(not reads, f"{f.key}|weather-only", f.where(), f"{f.qualname} computes the temperature features and must not read the usage column; found {reads[:3]}")
 
+    # the meter days of the *daily* data class must be all calendar days of the span, whatever the usage pattern (rules/daycompletion.py,
+    # shared with C09): a day without usage that is not put back as a row has its weather pooled into the previous day's prediction
+    from rules import daycompletion
+    mvf = chk.repo.func(DAILY_DATA, "_DailyData._compute_meter_value_df")
+    bad_dc, n_dc = daycompletion.judge(chk)
+    for k_, msg in bad_dc:
+        r4.require(False, f"{mvf.key}|{k_}", mvf.where(), "_compute_meter_value_df: " + msg)
+    if n_dc < 1:
+        raise AnalysisError(f"{mvf.key}: no interpreted path completes the calendar (anchor changed)")
+    r4.inst(f"{mvf.key}|calendar-completion[{n_dc}]", {"paths_completing_the_calendar": n_dc})
+
+    # gap filling of the weather columns must not look at the usage column: interpolate() is interpreted on recording values for every
+    # order in which the three columns can be handed in (rules/interp_absint.py); the term finally stored in temperature / ghi and in
+    # their flags must not mention df['observed'] (a scalar computed from the usage column keeps the column in its term)
+    from rules.interp_absint import cross_column_outcomes, usage_into_weather
+    ipf = chk.repo.func("opendsm.common.hourly_interpolation", "interpolate")
+    n_io, bad_io = 0, {}
+    _cco = cross_column_outcomes(chk)
+    from rules.interp_absint import usage_controls_weather
+    for msg in usage_controls_weather(_cco):
+        r4.require(False, f"{ipf.key}|usage-steers-weather-fill", ipf.where(), "interpolate(): " + msg + " — how a weather column is filled depends on the reporting period's consumption")
+    for o in _cco:
+        n_io += 1
+        if "raises" in o:
+            continue   # C17 judges raising paths
+        for b in usage_into_weather(o):
+            bad_io.setdefault(b.split(" = ")[0].split(",")[0][:60], (b, o["order"], o["n_rows"]))
+    for k_, (b, order, n_rows) in sorted(bad_io.items()):
+        r4.require(False, f"{ipf.key}|usage-into-weather-fill|{k_}", ipf.where(),
+                   f"interpolate(): with columns handed in as {order} on a frame of {n_rows} rows, what is stored for a weather column depends on the usage column: {b} — "
+                   "the filled-in weather, and with it the prediction, changes when the reporting period's consumption is altered or blanked")
+    r4.inst(f"{ipf.key}|cross-column-flow[{n_io}]", {"interpretations": n_io, "weather_columns_depending_on_usage": len(bad_io)})
+
     # the meter days the temperatures are grouped onto must not depend on the usage values: a thinly covered day stays a (NaN) row of
     # the daily roll-up (one-row interpretation shared with C08, rules/downsample_absint.py) - otherwise its weather is pooled into the
     # day before, which does get a prediction
